@@ -345,6 +345,14 @@ def run_pt(sc, sched, canonical=False, want_trace=False):
             c.eval_cost = c.grad_cost = float(sc["eval_cost"])
             L = oracles.lib_call
             pt = L('ParallelTempering()', ParallelTempering, chains)
+            if (sc["seed"] >> 3) % 4 == 0 and N >= 2:
+                # the caller goes on using the list (and the chain objects) it passed: the workers own copies, so nothing
+                # the caller does to them afterwards may reach the ladder
+                chains.reverse()
+                for ch_ in chains:
+                    ch_.inv_temp = 0.123
+                chains.pop()
+                stats["fault_caller_reuses_the_chain_list"] += 1
             pt_gen_names = [g.name for g in find_generators(pt).values()]
             prev = None
             if sc["snap"]:
